@@ -82,10 +82,11 @@ def check_stream(part, text, meta, got, ended, mon, lib, npop):
         return (x.date(), 1, x.time()) if isinstance(x, D.datetime) else (x, 0, D.time(0, 0))
     for i, (a, b) in enumerate(zip(got, got[1:])):
         if not okey(a) < okey(b):
-            # the stream hands out 63 occurrences per cache fill: a pair split by a refill is a failure of its own kind
-            # when the rule's candidates can leave the period they are computed in (listed finding), anything else is not
+            # rules whose candidates can leave the period (year, month) they are computed in - SHIFT, BYEASTER - are a
+            # failure class of their own: neighbouring periods overlap in time and the cache refill cannot cope (listed
+            # finding); the position of the pair says little, duplicates removed on the way shift the refill points
             reach = any(("SHIFT=" in t or "BYEASTER=" in t) for t in meta["rules"])
-            kind = "not-increasing/at-refill" if reach and (i + 1) % 63 == 0 and okey(a) != okey(b) else "not-increasing"
+            kind = "not-increasing/cross-period" if reach else "not-increasing"
             fails.append((kind, "%s then %s (positions %d, %d)" % (a, b, i, i + 1)))
             break
     lb = lower_bound(meta, lib)
@@ -179,8 +180,8 @@ def worker(args):
                         continue
                     m1meta = dict(meta, rules=[t], rule_objs=[{}], untils=[None])
                     kinds |= {k for k, _ in check_stream(part, solo, m1meta, g1, e1, None, lib, npop) if k.startswith("not-increasing")}
-                if kinds == {"not-increasing/at-refill"}:
-                    fails = [(("not-increasing/at-refill", d + " (the single rule shows it at its own refill)") if k == "not-increasing" else (k, d))
+                if kinds == {"not-increasing/cross-period"}:
+                    fails = [(("not-increasing/cross-period", d + " (the single rule shows it at its own refill)") if k == "not-increasing" else (k, d))
                              for k, d in fails]
             for kind, detail in fails:
                 part.violation(kind_key(meta, kind), {"input": text, "n": npop, "style": style, "detail": detail,
